@@ -56,10 +56,17 @@ memcpy(void * dst, const void * src, size_t n)
 			if (k >= off && k - off < n)
 				g_mc_buf[k] = (seen && k == g_mc_obs) ? v : nondet_hash_memcpy_u8();
 	} else {
+#ifdef HASH_MEMCPY_ONLY_BUF
+		/* groups in which every memcpy targets the registered buffer: do not even encode the general copy
+		   (its byte_update on the context object is expensive although unreachable) */
+		__CPROVER_assert(0, "MODEL-BOUND memcpy: destination is not the registered block buffer");
+		__CPROVER_assume(0);
+#else
 		/* CBMC's built-in model */
 		char src_n[n];
 		__CPROVER_array_copy(src_n, (char *)src);
 		__CPROVER_array_replace((char *)dst, src_n);
+#endif
 	}
 	return (dst);
 }
